@@ -86,6 +86,14 @@ def _build_phase(mod, pid, ctx):
     hits = core.grep_forbidden()
     if hits:
         ctx.broken.append("forbidden vernacular: " + "; ".join(hits[:5]))
+    if ok and ctx.tier == "thorough":
+        # independent checker over the closure of the property file; the axioms it lists are those of EVERY loaded library
+        chk = core.coqchk(pid)
+        ctx.extra["coqchk"] = {"cmd": f"cd coq && coqchk -silent -o -Q . TF TF.Props.{pid}", "ok": chk["ok"], "axioms": chk["axioms"]}
+        if not chk["ok"]:
+            ctx.broken.append("coqchk rejected the compiled closure of the property file: " + chk["log"][-600:])
+        elif any(a.split(".")[0] == "TF" for a in chk["axioms"]):
+            ctx.broken.append("coqchk reports an axiom declared by this development: " + "; ".join(chk["axioms"][:5]))
     if ok:
         import modelrun
         for area in getattr(mod, "AREAS", []):
